@@ -173,6 +173,10 @@ class OpRuntimeError(OpError, RuntimeError):
     """An operation failure that is also a RuntimeError (as many driver errors are)."""
 
 
+class OpGroup(ExceptionGroup):
+    """An exception group with a single member (what a TaskGroup / anyio nursery raises)."""
+
+
 class FalsyOpError(OpError):
     """An exception object whose bool() is False (e.g. an empty aggregate error)."""
 
@@ -988,7 +992,23 @@ class World:
             v = Val(n)
             self._rec_op(("op", n, label, t0, t1, self.reg(v)))
             return v
+        if label == "okx":
+            # the attempt succeeds and its *value* is an exception instance (a collected error, as
+            # gather(return_exceptions=True) hands them back): returned, never raised
+            v = OpError(f"value{n}")
+            self._rec_op(("op", n, "ok", t0, t1, self.reg(v)))
+            return v
         kind, _, rest = label.partition(":")
+        if kind == "xg":
+            inner = OpError(f"op{n}:{rest}:member")
+            inner.spec = (rest, None)
+            exc = OpGroup(f"op{n}:{rest}", [inner])
+            exc.spec = (rest, None)
+            code = STATUS_FOR.get(rest)
+            if code is not None:
+                exc.status = inner.status = code
+            self._rec_op(("op", n, "x:" + rest, t0, t1, self.reg(exc)))
+            _raise_here(exc)
         if kind == "rn":
             self._none_class = rest
             self._rec_op(("op", n, "r:" + rest, t0, t1, None))
